@@ -13,16 +13,19 @@ PROPS["C19"] = dict(
          "capacity, sprintbuf of 0..5000 bytes, reset, must-refuse sizes) on one printbuf, compared with a byte-array model "
          "after every step under ASan+UBSan; non-trivial = the buffer grew at least once AND the history has a memset gap, a "
          ">=128-byte sprintbuf, a fill ending exactly at capacity or a refused request; distinct by hash of the operation list. "
-         "Exhaustive sub-spaces: every sprintbuf output length 0..1499 at 4 fill levels; every (fill 0..39, offset -1..48, len 0..99) memset.",
+         "Exhaustive sub-spaces: every sprintbuf output length 0..1499 at 4 fill levels; every (fill 0..39, offset -1..48, len 0..99) memset; "
+         "6 histories on a buffer really grown past 1 GiB (INT_MAX/2, where the growth policy changes).",
     quick=[dict(mode="ops", cases=120000, workers=4),
            dict(mode="sprintf_len", enum=True, size=6000, workers=2),
-           dict(mode="memset_edges", enum=True, size=200000, workers=4)],
+           dict(mode="memset_edges", enum=True, size=200000, workers=4),
+           dict(mode="huge", enum=True, size=6, workers=2)],
     thorough=[dict(mode="ops", cases=8000000, workers=16),
+              dict(mode="huge", enum=True, size=6, workers=3),
               dict(mode="sprintf_len", enum=True, size=6000, workers=4),
               dict(mode="memset_edges", enum=True, size=200000, workers=8),
               dict(mode="ops", fuzz=True, secs=240, jobs=8, max_len=1024)],
     min_labels=dict(quick=dict(grew=5000, memset_gap=2000, sprintbuf_ge128=2000, refused=2000, memset_ends_at_capacity=300)),
-    assumptions=["sizes whose honest execution needs more than ~64 KiB of source data are generated only in the must-be-refused region",
+    assumptions=["sizes whose honest execution needs more than ~64 KiB of source data are generated only in the must-be-refused region, except the 6 'huge' histories (1-1.5 GiB, needs ~4 GiB of free memory per worker)",
                  "the growth policy itself is not pinned, only bounds/content/NUL"],
 )
 
@@ -223,7 +226,7 @@ PROPS["C17"] = dict(
     thorough=[dict(mode="gen", cases=10000000, workers=16),
               dict(mode="single", cases=300000, workers=16),
               dict(mode="gen", fuzz=True, secs=240, jobs=8, max_len=1024)],
-    min_labels=dict(quick=dict(deviation_reached=60000, SKIP=20000, POP=20000, STOP=10000, ERROR=10000, INVALID=10000)),
+    min_labels=dict(quick=dict(deviation_reached=60000, over_1100_skip_or_pop_returns=500, SKIP=20000, POP=20000, STOP=10000, ERROR=10000, INVALID=10000)),
     assumptions=["member order of the built tree is insertion order (C06)"],
 )
 
@@ -310,7 +313,7 @@ PROPS["C05"] = dict(
     rule="call history; non-trivial = it replaces/deletes an entry whose value has an outstanding harness reference, or overwrites an occupied array slot, or contains a failed transfer; distinct by hash of the call list",
     quick=[dict(mode="hist", cases=50000, workers=8, maxbytes=3000)],
     thorough=[dict(mode="hist", cases=4000000, workers=16, maxbytes=8000), dict(mode="hist", fuzz=True, secs=300, jobs=8, max_len=1024)],
-    min_labels=dict(quick=dict(replace_or_delete_of_shared_value=2500, put_idx_over_occupied_slot=700, failed_transfer=5000, cascade=8000, userdata_replaced=8000, deep_copy=5000, pointer_set=4000, patch=5000)),
+    min_labels=dict(quick=dict(replace_or_delete_of_shared_value=1800, object_resized_with_constant_and_duplicated_keys=800, put_idx_over_occupied_slot=700, failed_transfer=5000, cascade=8000, userdata_replaced=8000, deep_copy=5000, pointer_set=4000, patch=5000)),
     assumptions=["histories follow the documented ownership rules; misuse (double put, cycles) is outside the property"],
 )
 
